@@ -58,12 +58,20 @@ type fakeTC struct {
 	failGen    map[int]bool // calls (1-based) that fail
 	published  []string
 	removed    []string
+	// called once, from inside the next RegisteredHostnames call (the sync is then between reading its tunnel list and installing the result)
+	onRegistered func()
 }
 
 func (f *fakeTC) RegisteredHostnames(ctx context.Context, _ *protocol.RegisteredHostnamesRequest) (*protocol.RegisteredHostnamesResponse, error) {
 	f.mu.Lock()
-	defer f.mu.Unlock()
-	return &protocol.RegisteredHostnamesResponse{Hostnames: append([]string{}, f.registered...)}, nil
+	cb := f.onRegistered
+	f.onRegistered = nil
+	regs := append([]string{}, f.registered...)
+	f.mu.Unlock()
+	if cb != nil {
+		cb()
+	}
+	return &protocol.RegisteredHostnamesResponse{Hostnames: regs}, nil
 }
 
 func (f *fakeTC) GenerateHostname(ctx context.Context, _ *protocol.GenerateHostnameRequest) (*protocol.GenerateHostnameResponse, error) {
@@ -131,6 +139,7 @@ type syncCase struct {
 	Tun  []tunKind
 	Reg  []string
 	Fail []int // GenerateHostname calls that fail
+	Rm   int   // > 0: while the sync is waiting for the registered hostnames, the tunnel at this position (1-based) is released / unpublished by another caller
 }
 
 func runSync(dir string) {
@@ -158,6 +167,16 @@ func runSync(dir string) {
 		reg := append([]string{}, cs.Reg...)
 		verifkit.Rand(int64(i)).Shuffle(len(reg), func(a, b int) { reg[a], reg[b] = reg[b], reg[a] })
 		f.registered = reg
+		if cs.Rm > 0 && cs.Rm <= len(tunnels) && tunnels[cs.Rm-1].Hostname != "" {
+			gone := tunnels[cs.Rm-1].Hostname
+			f.onRegistered = func() {
+				if i%2 == 0 {
+					c.ReleaseTunnel(ctx, client.Tunnel{Hostname: gone})
+				} else {
+					c.UnpublishTunnel(ctx, client.Tunnel{Hostname: gone})
+				}
+			}
+		}
 		p := verifkit.Recover(func() { c.SyncConfigTunnels(ctx) })
 		cur := c.GetCurrentConfig()
 		out := make([]string, len(cur.Tunnels))
@@ -172,7 +191,7 @@ func runSync(dir string) {
 		if gen == nil {
 			gen = []string{}
 		}
-		verifkit.Answer(i, map[string]any{"out": out, "gen": gen, "nfail": f.genFailed, "same": same, "panic": p, "regorder": reg})
+		verifkit.Answer(i, map[string]any{"out": out, "gen": gen, "nfail": f.genFailed, "same": same, "panic": p, "regorder": reg, "rm": cs.Rm})
 		f.failGen = nil
 	})
 }
